@@ -206,6 +206,8 @@ static void do_lines(const std::string& label, const Rect64& r, const Paths64& i
   if (in.size() == 1) {
     emitS(label + ".spec", "LINESCHECK " + SR(r) + " " + S(in[0]) + " " + S(out));
     if (!force_spec) emitS(label + ".hyp", "LINESHYP " + SR(r) + " " + S(in[0]));
+    // hypothesis (no mis-rounded CrossProduct sign on this run) and conclusion (Cover) of Props.C09Cover.lines_cover
+    if (!force_spec) emitS(label + ".cover", "LINESCOVER " + SR(r) + " " + S(in[0]));
     stat("pieces", (long long)out.size());
     if (out.empty()) stat("result.empty"); else if (out.size() == 1) stat("result.one_piece"); else stat("result.several_pieces");
   }
@@ -251,6 +253,28 @@ int main(int argc, char** argv) {
     do_lines("corpus", Rect64(0, 0, 10, 0), Paths64{Path64{Point64(5, -5), Point64(5, 5)}});
     do_lines("corpus", Rect64(10, 10, 0, 0), Paths64{Path64{Point64(5, -5), Point64(5, 5)}});
     do_lines("corpus", Rect64(-B40, -B40, B40, B40), Paths64{Path64{Point64(-B40, -B40), Point64(B40, B40), Point64(B40, -B40)}});
+  }
+
+  // ---- witnesses of Props.C09Cover.pieces_not_maximal_witness(2): a boundary vertex reached from outside through the
+  // interior splits the part of the polyline inside the closed rectangle into two pieces sharing that vertex.
+  // The exact-arithmetic model (driver command LINESEXACT, value pinned by the theorems) must return what the real code
+  // returns, and the real code must return the two pieces.
+  {
+    Rect64 r(0, 0, 10, 10);
+    struct W { Paths64 in, want; };
+    std::vector<W> ws = {
+      { Paths64{Path64{Point64(20, 10), Point64(0, 0), Point64(10, 20)}},
+        Paths64{Path64{Point64(10, 5), Point64(0, 0)}, Path64{Point64(0, 0), Point64(5, 10)}} },
+      { Paths64{Path64{Point64(-5, 3), Point64(0, 4), Point64(10, 6), Point64(5, 5)}},
+        Paths64{Path64{Point64(0, 4), Point64(10, 6)}, Path64{Point64(10, 6), Point64(5, 5)}} } };
+    for (auto& w : ws) {
+      do_lines("cover.boundary_vertex_split", r, w.in);
+      Paths64 out = RectClipLines(r, w.in);
+      emitM("cover.boundary_vertex_split.exact", "LINESEXACT " + SR(r) + " " + S(w.in), S(out));
+      if (out != w.want)
+        emitF("cover.boundary_vertex_split", "real RectClipLines does not reproduce the witness of pieces_not_maximal_witness on " + S(w.in) + ": " + S(out));
+      else stat("cover.witness_reproduced");
+    }
   }
 
   // ---- known finding (minimised by hand; exact crossing of x = 347 is at y = 433.99999999, i.e. the segment misses the
